@@ -143,6 +143,8 @@ type (
 	// Changes to validator
 	validatorCreateChange struct {
 		address *common.Address
+		prev    *Validator // live (deleted) object the new validator replaced, nil if there was none
+		indexed bool       // the address was in the validator index before
 	}
 	validatorUpdateChange struct {
 		address *common.Address
@@ -167,8 +169,14 @@ type (
 func (ch validatorCreateChange) revert(s *StateDB) {
 	val, _ := s.validatorObjects.Load(*ch.address)
 	s.decrValidatorsStat(val.(*Validator))
-	s.validatorObjects.Delete(*ch.address)
-	s.validatorIndex.Delete(*ch.address)
+	if ch.prev != nil {
+		s.validatorObjects.Store(*ch.address, ch.prev)
+	} else {
+		s.validatorObjects.Delete(*ch.address)
+	}
+	if !ch.indexed {
+		s.validatorIndex.Delete(*ch.address)
+	}
 }
 
 func (ch validatorCreateChange) dirtied() *common.Address {
